@@ -5,7 +5,7 @@ import os
 import re
 import time
 
-from common import (Infra, Scratch, build_harness, count_lines, load_known, log, parallel, run, seed, tlc_design,
+from common import (Infra, Scratch, build_harness, count_lines, load_known, log, parallel, run, seed, tlaps_design, tlc_design,
                     validate_trace, write_evidence, VERIF, BUILD)
 
 
@@ -37,6 +37,8 @@ def run_simple(pid, tier, plan, replay=None):
                 design.append(d)
                 tlc_states += d["distinct"]
                 tlc_trans += d["generated"]
+            for mod in plan.get("proofs", []):
+                design.append(tlaps_design(scratch, mod))
 
         def one(ij):
             i, job = ij
